@@ -529,11 +529,16 @@ fn generated_watch(seed: u64, k: u64) -> Case {
     let n = 4 + (next() % 4) as usize;
     let mut contents = Vec::new();
     let mut events = Vec::new();
+    let mut prev_broken = false;
     for _ in 0..n {
-        contents.push(pool[(next() % pool.len() as u64) as usize].clone());
+        let pick = (next() % pool.len() as u64) as usize;
+        contents.push(pool[pick].clone());
         let how = [0u8, 0, 1, 2, 3][(next() % 5) as usize];
-        let side = [0u8, 0, 0, 4, 8, 8, 16, 12][(next() % 8) as usize];
+        // right after a version that failed (labels may have been recorded) sibling files change
+        // more often: the re-check those events cause sees the broken version once more
+        let side = if prev_broken { [8u8, 8, 12, 4, 16, 0][(next() % 6) as usize] } else { [0u8, 0, 0, 4, 8, 8, 16, 12][(next() % 8) as usize] };
         events.push(how | side);
+        prev_broken = matches!(pick, 2..=7 | 9);
     }
     Case::Watch { contents, events }
 }
